@@ -21,6 +21,12 @@ func (db *DB) Create(value interface{}) (tx *DB) {
 	}
 
 	tx = db.getInstance()
+	if reflect.ValueOf(value).Kind() == reflect.Struct {
+		// a record passed by value cannot receive its generated key; without this check a model
+		// without hooks (or a SkipHooks session) panics inside the default transaction
+		tx.AddError(ErrInvalidValue)
+		return tx
+	}
 	tx.Statement.Dest = value
 	return tx.callbacks.Create().Execute(tx)
 }
